@@ -104,11 +104,10 @@ Definition astep (a : astate) (o : op) : astate * out :=
     let snap := map (fun p => (fst p, committed_val (snd p))) (a_vers a) in
     (mka (a_vers a) (a_open a ++ [mkatx id l snap []]) (N.succ id), OutHandle id)
   | OSet h k v =>
-    if N.eqb k 0 then (a, OutErr EEmptyKey)
-    else match areader a h with
-         | None => (a, OutErr ETxNotFound)
-         | Some _ => (awrite a h k (Some v), OutUnit)
-         end
+    match areader a h with
+    | None => (a, OutErr ETxNotFound)
+    | Some _ => if N.eqb k 0 then (a, OutErr EEmptyKey) else (awrite a h k (Some v), OutUnit)
+    end
   | ODel h k =>
     match areader a h with
     | None => (a, OutErr ETxNotFound)
@@ -169,7 +168,7 @@ Definition kvrun (ops : list op) : list out := kvrun_from [] ops.
 
 (* hypothesis H of the refinement theorem: no write through a handle that is not open *)
 Definition write_handle (o : op) : option N :=
-  match o with OSet h k _ => if N.eqb k 0 then None else Some h | ODel h _ => Some h | _ => None end.
+  match o with OSet h _ _ => Some h | ODel h _ => Some h | _ => None end.
 Fixpoint no_late_writes_from (a : astate) (ops : list op) : bool :=
   match ops with
   | [] => true
